@@ -51,14 +51,14 @@ func runC08(p *Prog, r *Report) {
 	c08PerRoot(p, r, e)
 	checkFileAPI(p, r, e, "D3-per-root")
 	onlyLoopEndSkips(p, r, "D3-per-root", "filesystem.Run:every-root-walked", e.Run, func(in ssa.Instruction) bool {
-		c := callOf(in)
-		return c != nil && c.StaticCallee() == e.runOnScanRoot
-	}, nil, "a scan root can be skipped without being walked (e.g. de-duplication by Path, which is empty for every virtual root): its packages and statuses are missing from the union")
+		return e.isPerRootCall(callOf(in))
+	}, perRootErrorExits(e), "a scan root can be skipped without being walked (e.g. de-duplication by Path, which is empty for every virtual root): its packages and statuses are missing from the union")
 	mapOnlySetTrue(p, r, "D3-per-root", "walkContext", "foundInv", "extractor/filesystem", "the 'extractor found inventory' flag is overwritten per file instead of being sticky for the root: whether an extractor with one failing file is reported failed or partially succeeded depends on which of its files the walk reached last")
 	c08Balanced(p, r, e, "D5-balanced")
 }
 
 func c08Sorted(p *Prog, r *Report) {
+	c08CmpFns = map[string]*ssa.Function{}
 	scan := p.Func(".", "Scanner.Scan")
 	nsr := p.Func(".", "newScanResult")
 	sr := p.Func(".", "sortResults")
@@ -104,6 +104,7 @@ func c08Sorted(p *Prog, r *Report) {
 			cf := funcValue(c.Call.Args[1])
 			if ok && cf != nil {
 				got[f] = cf.Name()
+				c08CmpFns[f] = cf
 				sortCalls = append(sortCalls, in)
 			}
 		}
@@ -115,7 +116,9 @@ func c08Sorted(p *Prog, r *Report) {
 		}
 	})
 	for _, f := range sortedKeys(want) {
-		r.Check(got[f] == want[f], "D1-sorted", fs.key+":"+f, p.Pos(sr.Pos()), "sorted with "+want[f], fmt.Sprintf("result field %s is not sorted with %s (found %q): its order depends on directory listing / map iteration order", f, want[f], got[f]))
+		// the comparator may be the named function or a literal; what it compares is checked by D2 on
+		// whichever function the sort call is given
+		r.Check(got[f] != "", "D1-sorted", fs.key+":"+f, p.Pos(sr.Pos()), "sorted with "+got[f], fmt.Sprintf("result field %s is not sorted with a comparator function (as with %s): its order depends on directory listing / map iteration order", f, want[f]))
 	}
 	r.Check(got["Locations"] != "", "D1-sorted", fs.key+":Locations", p.Pos(sr.Pos()), "each package's locations sorted", "package locations are not sorted")
 	for _, sc := range sortCalls {
@@ -131,16 +134,23 @@ func loadAddr(v ssa.Value) ssa.Value {
 	return v
 }
 
+// c08CmpFns: the comparator function each result field is sorted with (filled by the D1 rule).
+var c08CmpFns = map[string]*ssa.Function{}
+
 func c08Comparators(p *Prog, r *Report) {
 	for _, spec := range []struct {
-		name string
-		keys []string
+		name  string
+		field string
+		keys  []string
 	}{
-		{"CmpPackages", []string{".Name", ".Version", ".Extractor.Name()", "Locations"}},
-		{"cmpStatus", []string{".Name"}},
-		{"cmpFindings", []string{".Adv.ID.Reference", ".Extra"}},
+		{"CmpPackages", "Packages", []string{".Name", ".Version", ".Extractor.Name()", "Locations"}},
+		{"cmpStatus", "PluginStatus", []string{".Name"}},
+		{"cmpFindings", "Findings", []string{".Adv.ID.Reference", ".Extra"}},
 	} {
-		fn := p.Func(".", spec.name)
+		fn := c08CmpFns[spec.field]
+		if fn == nil {
+			fn = p.Func(".", spec.name)
+		}
 		if fn == nil || len(fn.Params) != 2 {
 			r.Undecided("D2-mirror", "anchor:"+spec.name, "-", "comparator not found")
 			continue
@@ -185,6 +195,16 @@ func c08Comparators(p *Prog, r *Report) {
 	}
 }
 
+// perRootErrorExits: with runOnScanRoot written out in Run's loop, its two error exits (the root's
+// path cannot be made absolute; the walk context cannot be moved to the root) precede the walk. They
+// return the error to the caller; they are not silent skips.
+func perRootErrorExits(e *engine) []string {
+	if e.runOnScanRoot != nil {
+		return nil
+	}
+	return []string{"path/filepath.Abs(", "extractor/filesystem.UpdateScanRoot("}
+}
+
 func c08PerRoot(p *Prog, r *Report, e *engine) {
 	up := newFA(p, r, e.UpdateRoot)
 	for _, f := range []string{"inventory", "errors", "foundInv"} {
@@ -197,8 +217,8 @@ func c08PerRoot(p *Prog, r *Report, e *engine) {
 			return !derivesFrom(st.Val, func(v ssa.Value) bool { return loadsField(v, "walkContext", f) && v != st.Val }, deriveOpts{})
 		}, nil, "re-initialised on every path", "moving to the next scan root does not re-initialise wc."+f+": results of earlier roots are reported again (Run appends the cumulative value per root)")
 	}
-	// runOnScanRoot: UpdateScanRoot before RunFS on every path
-	ro := newFA(p, r, e.runOnScanRoot)
+	// runOnScanRoot (or its body written out in Run's loop): UpdateScanRoot before RunFS on every path
+	ro := newFA(p, r, e.perRootFn())
 	var upd, run ssa.Instruction
 	forEachInstr(ro.fn, func(_ *ssa.BasicBlock, _ int, in ssa.Instruction) {
 		if c, ok := in.(*ssa.Call); ok {
@@ -213,7 +233,11 @@ func c08PerRoot(p *Prog, r *Report, e *engine) {
 	if upd == nil || run == nil {
 		r.Fail("D3-per-root", ro.key+":order", p.Pos(ro.fn.Pos()), "runOnScanRoot does not call UpdateScanRoot and RunFS")
 	} else {
-		ro.noPath("D3-per-root", "update-before-walk", entryPoint(ro.fn), instrIs(run), instrIs(upd), nil, "UpdateScanRoot precedes every RunFS", "a root can be walked without the walk context having been moved (and reset) to it")
+		start := entryPoint(ro.fn)
+		if hdr := loopHeaderOf(run.Block()); hdr != nil && e.runOnScanRoot == nil {
+			start = Point{hdr, -1} // per iteration of Run's loop over the roots
+		}
+		ro.noPath("D3-per-root", "update-before-walk", start, instrIs(run), instrIs(upd), nil, "UpdateScanRoot precedes every RunFS", "a root can be walked without the walk context having been moved (and reset) to it")
 	}
 	// RunFS returns wc.inventory
 	rf := e.RunFS
@@ -228,7 +252,7 @@ func c08PerRoot(p *Prog, r *Report, e *engine) {
 	rn := newFA(p, r, e.Run)
 	var call *ssa.Call
 	forEachInstr(rn.fn, func(_ *ssa.BasicBlock, _ int, in ssa.Instruction) {
-		if c, ok := in.(*ssa.Call); ok && c.Call.StaticCallee() == e.runOnScanRoot {
+		if c, ok := in.(*ssa.Call); ok && e.isPerRootCall(c.Common()) {
 			call = c
 		}
 	})
